@@ -9,7 +9,7 @@
  * because a sanitizer report ends the process.
  *
  * Modes: base32 base32hex base64 utf8to16 utf8iso utf16even utf16odd utfany adversarial adv8any
- *        adv16odd chain incompat exhaustive (classes are split where a known crash would otherwise
+ *        adv16odd adv16tail chain incompat exhaustive (classes are split where a known crash would otherwise
  *        end the process before the rest of the class is explored)
  * Options: --maxlen=N (largest random input), --nrand=N (random inputs per trial)
  *
@@ -301,6 +301,9 @@ static int read_result(dispatch_data_t r, size_t in_n, buf_t *out, size_t *claim
 	size_t bound = in_n * 8 + 64, total = dispatch_data_get_size(r);
 	if (claimed) *claimed = total;
 	if (total > bound) return RK_BOGUS;
+	/* every legitimate zero-size object is the dispatch_data_empty singleton (create, subrange and concat all
+	 * return it); another object of size 0 is a composite whose record lengths wrapped around */
+	if (total == 0 && r != dispatch_data_empty) return RK_BOGUS;
 	__block bool bad = false;
 	__block size_t worst = 0;
 	dispatch_data_apply(r, ^bool(dispatch_data_t region, size_t offset, const void *p, size_t len) {
@@ -390,7 +393,7 @@ typedef struct {
 
 #define EXH_MAX 16         /* every split of inputs up to this many bytes ... */
 #define EXH_PARTS 4        /* ... into up to this many regions is enumerated */
-enum { PAR_ANY, PAR_EVEN, PAR_NEEDODD, PAR_MBISO };
+enum { PAR_ANY, PAR_EVEN, PAR_NEEDODD, PAR_MBISO, PAR_SINGLE };
 /* boundary offsets: any / even only / at least one odd / any, but no region may start inside one multi-byte
  * UTF-8 sequence and end inside a different one (class split so that one defect cannot end every process) */
 
@@ -420,10 +423,12 @@ static bool cuts_ok(const input_t *in, const size_t *cuts, size_t nc, int parity
 {
 	bool odd = false;
 	if (parity == PAR_ANY) return true;
+	if (parity == PAR_SINGLE) return nc == 0;
 	if (parity == PAR_MBISO) {
-		for (size_t i = 0; in->cut && i + 1 < nc; i++) {
-			if (!(in->cut[cuts[i]] & FEAT_MB) || !(in->cut[cuts[i + 1]] & FEAT_MB)) continue;
-			for (size_t p = cuts[i] + 1; p < cuts[i + 1]; p++) if (!(in->cut[p] & FEAT_MB)) return false;   /* two different sequences */
+		for (size_t i = 0; in->cut && i < nc; i++) {
+			size_t a = cuts[i], b = i + 1 < nc ? cuts[i + 1] : in->n;   /* the region [a, b) */
+			if (!(in->cut[a] & FEAT_MB) || !(in->cut[b] & FEAT_MB)) continue;
+			for (size_t p = a + 1; p < b; p++) if (!(in->cut[p] & FEAT_MB)) return false;   /* two different sequences */
 		}
 		return true;
 	}
@@ -448,6 +453,7 @@ static void for_each_frag(vf_rng_t *r, const input_t *in, int parity, int nrand,
 	size_t n = in->n;
 	size_t step = parity == PAR_EVEN ? 2 : 1;
 	if (n == 0) { if (parity != PAR_NEEDODD) emit_cuts(in, NULL, 0, "exh", true, fn); return; }
+	if (parity == PAR_SINGLE) { emit_cuts(in, NULL, 0, "single", false, fn); return; }
 	if (n <= EXH_MAX) {
 		size_t c[3];
 		if (parity != PAR_NEEDODD) emit_cuts(in, c, 0, "exh", true, fn);
@@ -504,8 +510,8 @@ static void for_each_frag(vf_rng_t *r, const input_t *in, int parity, int nrand,
 		if (parity == PAR_EVEN) for (size_t i = 0; i < m; i++) c[i] &= ~(size_t)1;
 		m = uniq_cuts(c, m, n);
 		if (parity == PAR_NEEDODD && !cuts_ok(in, c, m, parity)) { c[m++] = (1 + vf_rnd_n(r, (uint32_t)(n - 1))) | 1; if (c[m - 1] >= n) c[m - 1] = 1; m = uniq_cuts(c, m, n); }
-		while (parity == PAR_MBISO && m > 1 && !cuts_ok(in, c, m, parity)) {   /* drop cuts until the split is in the class */
-			size_t j = 1 + vf_rnd_n(r, (uint32_t)(m - 1));
+		while (parity == PAR_MBISO && m > 0 && !cuts_ok(in, c, m, parity)) {   /* drop cuts until the split is in the class */
+			size_t j = vf_rnd_n(r, (uint32_t)m);
 			memmove(c + j, c + j + 1, (m - j - 1) * sizeof(size_t)); m--;
 		}
 		if (m == 0) continue;
@@ -527,6 +533,7 @@ static uint8_t *cutmap_utf8_lenient(const uint8_t *b, size_t n)
 	for (size_t p = 0; p < n;) {
 		size_t l = b[p] < 0x80 ? 1 : (b[p] & 0xe0) == 0xc0 ? 2 : (b[p] & 0xf0) == 0xe0 ? 3 : (b[p] & 0xf8) == 0xf0 ? 4 : 1;
 		for (size_t j = 1; j < l && p + j < n; j++) m[p + j] = FEAT_MB;
+		if (p + l > n) m[n] = FEAT_MB;   /* truncated last sequence: the end of the input lies inside it */
 		p += l;
 	}
 	return m;
@@ -632,7 +639,7 @@ static void basen_roundtrip(vf_rng_t *r, int f, const uint8_t *x, size_t n, int 
 				snprintf(key, sizeof(key), "C20:%s-decode:%s:%s", kname[f], feature, o);
 				vf_violation(key, "%s->none of \"%.*s\" (= encoding of %s, %zu bytes) split as %s: %s; result %s size=%zu (0x%zx) bytes=%s",
 						fname[f], (int)(tn > 96 ? 96 : tn), (const char *)t, hexs(hx, sizeof(hx), x, n), n, sizes_str(ss, sizeof(ss), sz, k), o,
-						rk == RK_NULL ? "NULL" : rk == RK_BOGUS ? "object whose size is not backed by memory," : "object", claimed, claimed,
+						rk == RK_NULL ? "NULL" : rk == RK_BOGUS ? "object whose size is not backed by memory (size 0 on a non-empty composite = region lengths wrapped around 2^64)," : "object", claimed, claimed,
 						rk == RK_OK ? hexs(hg, sizeof(hg), gp->p, gp->n) : "-");
 			}
 			note_case(f, F_NONE, icls, k, feat, kind, o ? o : "ok", t, tn, sz);
@@ -762,7 +769,7 @@ static const char *fwd_back_outcome(const uint8_t *u, size_t n, const size_t *sz
 		else if (rk2 == RK_BOGUS) o = "inverse-result-size-out-of-bounds";
 		else o = text_diff(u, n, yp->p, yp->n);
 	}
-	if (y) dispatch_release(y);
+	if (y && y != x) dispatch_release(y);
 	if (x) dispatch_release(x);
 	*prk = rk; *prk2 = rk2;
 	return o;
@@ -1019,6 +1026,9 @@ static void gen_adv_basen(vf_rng_t *r, int f, bool do_rand, size_t maxlen)
 	buf_t e = { 0 }, t = { 0 };
 	uint8_t x[16];
 	static const char ws[] = { ' ', '\n', '\t' };
+	for (size_t n = 1; n <= 9; n++) adv_add("=========", n, "bn:pads-only", f);
+	adv_add("", 0, "bn:empty", f);
+	adv_add(" \n\t ", 4, "bn:ws-only", f);
 	static const uint8_t bad[] = { 'a', 'z', '-', '_', '@', 0x80, 0xff, 0x00, '\r', '1', '8', '9', '0', '*', '~', 0x7f, '[' };
 	for (size_t n = 1; n <= (size_t)gbytes_of(f) + 2; n++) {
 		for (size_t i = 0; i < n; i++) x[i] = (uint8_t)vf_rnd(r);
@@ -1041,9 +1051,6 @@ static void gen_adv_basen(vf_rng_t *r, int f, bool do_rand, size_t maxlen)
 		buf_reset(&t); buf_add(&t, e.p, e.n); buf_add(&t, "\n \t\n", 1 + vf_rnd_n(r, 4));
 		adv_add(t.p, t.n, "bn:ws-after-text", f);
 	}
-	for (size_t n = 1; n <= 9; n++) adv_add("=========", n, "bn:pads-only", f);
-	adv_add("", 0, "bn:empty", f);
-	adv_add(" \n\t ", 4, "bn:ws-only", f);
 	for (int i = 0; i < 8; i++) {
 		buf_reset(&t);
 		size_t n = vf_rnd_range(r, 1, EXH_MAX);
@@ -1082,6 +1089,7 @@ static void adv_pair(vf_rng_t *r, const adv_t *a, int fi, int fo, int parity, in
 	const uint8_t *b = a->b; size_t n = a->n;
 	const char *icls = a->cls;
 	int fback = fi == F_ANY ? detect_any(b, n) : fi;
+	int kfi = fback;   /* keys name the detected type: UTF_ANY only selects it */
 	uint8_t *cm = a->fmt == F_UTF8 ? cutmap_utf8_lenient(b, n) : is_u16(a->fmt) ? cutmap_u16(b, n, a->fmt) : cutmap_basen(b, n, a->fmt);
 	input_t in = { b, n, cm, icls };
 	bool haspad = is_basen(fi) && n && memchr(b, '=', n);
@@ -1102,9 +1110,9 @@ static void adv_pair(vf_rng_t *r, const adv_t *a, int fi, int fo, int parity, in
 		else if (rk == RK_BOGUS) {
 			char key[160], hx[128], ss[160];
 			outcome = "VIOLATION:size";
-			if (fo == F_NONE) snprintf(key, sizeof(key), "C20:%s-decode:result-size-out-of-bounds:%s:%s", kname[fi],
+			if (fo == F_NONE) snprintf(key, sizeof(key), "C20:%s-decode:result-size-out-of-bounds:%s:%s", kname[kfi],
 					haspad ? "input-with-padding" : "arbitrary-input", bogus0 ? "any-fragmentation" : "fragmented");
-			else snprintf(key, sizeof(key), "C20:%s-to-%s:result-size-out-of-bounds:%s:%s", kname[fi], kname[fo],
+			else snprintf(key, sizeof(key), "C20:%s-to-%s:result-size-out-of-bounds:%s:%s", kname[kfi], kname[fo],
 					haspad ? "input-with-padding" : "arbitrary-input", bogus0 ? "any-fragmentation" : "fragmented");
 			vf_violation(key, "%s->%s of %s (%s) split as %s returned an object that claims %zu (0x%zx) bytes for %zu input bytes: its size is not backed by memory, any reader (e.g. the inverse transform) runs out of bounds",
 					fname[fi], fname[fo], hexs(hx, sizeof(hx), b, n), icls, sizes_str(ss, sizeof(ss), sz, k), c1, c1, n);
@@ -1126,8 +1134,8 @@ static void adv_pair(vf_rng_t *r, const adv_t *a, int fi, int fo, int parity, in
 				else if (fo == F_UTF8) why = ref_utf8_decode(gp->p, gp->n, NULL) >= 0 ? "wellformed" : "ill-formed";
 				else if (is_basen(fo)) { buf_t s = { 0 }; why = ref_basen_decode(fo, gp->p, gp->n, &s) ? "canonical" : "non-canonical"; buf_free(&s); }
 				if (is_u16(fo) && unit == 0xdfff && !strcmp(why, "lone-low-surrogate"))
-					snprintf(key, sizeof(key), "C20:%s-to-utf16:accepts-U+DFFF:inverse-rejects", kname[fi]);
-				else snprintf(key, sizeof(key), "C20:%s-to-%s:inverse-rejects:output-%s", kname[fi], kname[fo], why);
+					snprintf(key, sizeof(key), "C20:%s-to-utf16:accepts-U+DFFF:inverse-rejects", kname[kfi]);
+				else snprintf(key, sizeof(key), "C20:%s-to-%s:inverse-rejects:output-%s", kname[kfi], kname[fo], why);
 				vf_violation(key, "%s->%s of %s (%s) split as %s returned %s (reference validator: %s, unit U+%04X), but the inverse %s->%s of that result returns NULL",
 						fname[fi], fname[fo], hexs(hx, sizeof(hx), b, n), icls, sizes_str(ss, sizeof(ss), sz, k), hexs(h1, sizeof(h1), gp->p, gp->n),
 						why, unit, fname[fo], fname[fback]);
@@ -1141,7 +1149,7 @@ static void adv_pair(vf_rng_t *r, const adv_t *a, int fi, int fo, int parity, in
 		}
 		note_case(fi, fo, icls, k, feat, kind, outcome, b, n, sz);
 	out:
-		if (back) dispatch_release(back);
+		if (back && back != res) dispatch_release(back);   /* a zero-size input is returned as is, not retained */
 		if (res) dispatch_release(res);
 	};
 	size_t whole = n;
@@ -1166,9 +1174,8 @@ static void run_adversarial(vf_rng_t *r, int which, bool do_rand, size_t maxlen)
 	static const int basen[] = { F_B32, F_B32HEX, F_B64 };
 	adv_clear();
 	if (which == 0 || which == 3) gen_adv_utf8(r, do_rand, maxlen);
-	if (which <= 1) { gen_adv_u16(r, F_U16LE, do_rand, maxlen); gen_adv_u16(r, F_U16BE, do_rand, maxlen); }
-	if (which == 0 || which == 2) for (int i = 0; i < 3; i++) gen_adv_basen(r, basen[i], do_rand, maxlen);
-	if (which == 2) {   /* valid encodings too: the decoder of the first format feeds the encoder of the second */
+	if (which <= 1 || which == 4) { gen_adv_u16(r, F_U16LE, do_rand, maxlen); gen_adv_u16(r, F_U16BE, do_rand, maxlen); }
+	if (which == 2) {   /* valid encodings first: the decoder of the first format feeds the encoder of the second */
 		buf_t e = { 0 }; uint8_t x[64];
 		for (int i = 0; i < 3; i++) for (size_t n = 1; n <= 12; n++) {
 			for (size_t j = 0; j < n; j++) x[j] = (uint8_t)vf_rnd(r);
@@ -1177,6 +1184,7 @@ static void run_adversarial(vf_rng_t *r, int which, bool do_rand, size_t maxlen)
 		}
 		buf_free(&e);
 	}
+	if (which == 0 || which == 2) for (int i = 0; i < 3; i++) gen_adv_basen(r, basen[i], do_rand, maxlen);
 	for (size_t i = 0; i < g_nadv; i++) {
 		const adv_t *a = &g_adv[i];
 		int nr = 5;
@@ -1186,9 +1194,13 @@ static void run_adversarial(vf_rng_t *r, int which, bool do_rand, size_t maxlen)
 			adv_pair(r, a, F_UTF8, F_U16LE, par, nr, false);
 			adv_pair(r, a, F_UTF8, F_U16BE, par, nr, false);
 			adv_pair(r, a, F_UTF8, F_UTF8, par, nr, false);
-			adv_pair(r, a, F_ANY, F_U16LE, par, nr, false);
+			adv_pair(r, a, F_ANY, F_U16LE, is_u16(detect_any(a->b, a->n)) ? PAR_EVEN : par, nr, false);
 		} else if (is_u16(a->fmt)) {
-			int par = which == 1 ? PAR_NEEDODD : PAR_EVEN, other = a->fmt == F_U16LE ? F_U16BE : F_U16LE;
+			/* an odd-sized region anywhere (also the last one of an odd-length input) belongs to the crash-prone class */
+			int par = which == 1 ? ((a->n & 1) ? PAR_ANY : PAR_NEEDODD) : which == 4 ? PAR_SINGLE : PAR_EVEN;
+			if (which == 0 && (a->n & 1)) continue;   /* odd total length: explored in adv16odd / adv16tail */
+			if (which == 4 && !(a->n & 1)) continue;
+			int other = a->fmt == F_U16LE ? F_U16BE : F_U16LE;
 			adv_pair(r, a, a->fmt, F_UTF8, par, nr, false);
 			adv_pair(r, a, a->fmt, other, par, nr, false);
 			adv_pair(r, a, a->fmt, a->fmt, par, nr, false);
@@ -1267,6 +1279,7 @@ int main(int argc, char **argv)
 		else if (!strcmp(mode, "utf8to16")) run_utf(&r, 0, idx, true, true, maxlen, ninputs);
 		else if (!strcmp(mode, "utf8iso")) run_utf(&r, 4, idx, true, true, maxlen, ninputs);
 		else if (!strcmp(mode, "adv8any")) run_adversarial(&r, 3, true, maxlen);
+		else if (!strcmp(mode, "adv16tail")) run_adversarial(&r, 4, true, maxlen);
 		else if (!strcmp(mode, "utf16even")) run_utf(&r, 1, idx, true, true, maxlen, ninputs);
 		else if (!strcmp(mode, "utf16odd")) run_utf(&r, 2, idx, true, true, maxlen, ninputs);
 		else if (!strcmp(mode, "utfany")) run_utf(&r, 3, idx, true, true, maxlen, ninputs);
